@@ -14,11 +14,11 @@ TRUST = "Trusts lib/zckref.py (written from zchunk_format.txt), Python hashlib, 
 
 CHECKS = {
     "C01": dict(level="exploration",
-                technique="runtime differential monitoring: write with real library under ASan/UBSan, read back through library (generated buffer-size sequences) and an independent reference decoder; CPU-time bound on the write path; zck/unzck end to end; output behind a preamble / O_APPEND; CPU-bound overruns confirmed on the uninstrumented build",
+                technique="runtime differential monitoring: write with real library under ASan/UBSan, read back through library (generated buffer-size sequences) and an independent reference decoder; CPU-time bound on the write path; zck/unzck end to end; output behind a preamble / O_APPEND; procfs inputs; unzck over an existing output file; CPU-bound overruns confirmed on the uninstrumented build",
                 text="Held on every generated (content, configuration, segmentation, read sequence) case executed; sampled, not exhaustive. Right level because the property quantifies over unbounded inputs/configurations and the oracle (byte equality with the written content, plus an independent decoder) is exact for each execution.",
                 note=TRUST + " Inputs <= 2 MiB."),
     "C02": dict(level="exploration",
-                technique="runtime monitoring of the real reader (library + unzck, ASan/UBSan) on mutated and re-sealed files; offline oracle over the read event log: success implies equality with an independent reference decoder; reads issued after validation calls as well; the same alterations under the detached-header identifier; truncation at every chunk boundary",
+                technique="runtime monitoring of the real reader (library + unzck, ASan/UBSan) on mutated and re-sealed files; offline oracle over the read event log: success implies equality with an independent reference decoder; reads issued after validation calls as well; the same alterations under the detached-header identifier; truncation at every chunk boundary; unaltered files of other writers / encoders (padded headers, stored empty dictionary frame, frames without content size, multi-frame chunks, equal-size chunks)",
                 text=EXPL + " One-directional oracle (success => equals reference content).",
                 note=TRUST + " Corruption patterns limited to the mutation grammar; hash collisions out of scope."),
     "C03": dict(level="exploration",
@@ -26,7 +26,7 @@ CHECKS = {
                 text=EXPL + " A clean sanitizer run is not memory safety: red-zone tools miss far and intra-object overflows.",
                 note="Counts ASan/UBSan reports, fatal signals and CPU-bound overruns (DESIGN 3.1, 3.3); nonnull-attribute and leaks not counted."),
     "C04": dict(level="exploration",
-                technique="offline checker over the recorded request/response/valid-flag history of the documented update procedure run in-process against a server holding B (and the real zckdl against a loopback range server in the thorough tier): final bytes == B, requested bytes == exactly the stored extents of the chunks neither valid in the target nor present in A; requests with thousands of separate ranges",
+                technique="offline checker over the recorded request/response/valid-flag history of the documented update procedure run in-process against a server holding B (and the real zckdl against a loopback range server in the thorough tier): final bytes == B, requested bytes == exactly the stored extents of the chunks neither valid in the target nor present in A; requests with thousands of separate ranges; HTTP/2 status lines, earlier header blocks, blanks in boundaries, chained application callbacks",
                 text=EXPL,
                 note=TRUST + " Expected fetch set computed from A, B and the initial target by the reference parser only."),
     "C05": dict(level="exploration",
@@ -34,23 +34,23 @@ CHECKS = {
                 text=EXPL + " The 1- and 2-cut fragmentation spaces of the small responses are enumerated completely.",
                 note=TRUST + " Response shapes limited to the grammar in DESIGN 5 C05."),
     "C06": dict(level="exploration",
-                technique="exhaustive single-byte mutation of the header region (every position x every other value) of sample files through the real open paths (zck_init_read; lead+header step by step; pinned to the genuine checksum before / after the lead; every failing step repeated after zck_clear_error) under ASan; patched images incl. non-minimal re-encodings of every integer; independent header checksum recomputation with hashlib",
+                technique="exhaustive single-byte mutation of the header region (every position x every other value) of sample files through the real open paths (zck_init_read; lead+header step by step; pinned to the genuine checksum before / after the lead; every failing step repeated after zck_clear_error; writer-side options set on the reading context) under ASan; padded headers with a checksum reaching only to the signatures; patched images incl. non-minimal re-encodings of every integer; independent header checksum recomputation with hashlib",
                 text="Every single-byte substitution of every header byte of each sample file is executed (exhaustive over that finite space); insertions/deletions and digest transplants sampled. Right level: the property is a statement about each header byte.",
                 note="Independent checksum from Python hashlib; sample files cover the 4 lead checksum types, flags, dict/no dict, detached headers."),
     "C07": dict(level="exploration",
-                technique="runtime enumeration of pinned-digest strings (every position x all 256 byte values), lengths, type/length pins and pin-vs-actual grids through the real option setters and lead readers; oracle = Python int(x,16) / byte equality; pins whose differences cancel under folding, refused re-pins, pins changed between zck_validate_lead and the open, images through pipe / FIFO / socket / behind another image",
+                technique="runtime enumeration of pinned-digest strings (every position x all 256 byte values), lengths, type/length pins and pin-vs-actual grids through the real option setters and lead readers; oracle = Python int(x,16) / byte equality; pins whose differences cancel under folding, refused re-pins, pins changed / file rewritten in place between zck_validate_lead and the open, type pins beyond the int range, leads whose size wraps around 2^64, images through pipe / FIFO / socket / behind another image",
                 text=EXPL + " The per-position byte enumeration of the digest string is exhaustive.",
                 note="Oracle: Python string/hex semantics; reference parse of the file's lead."),
     "C08": dict(level="exploration",
-                technique="offline checker over zck_copy_chunks / zck_find_matching_chunks runs: valid flags vs hashlib recomputation over the target's bytes, write(2) interposer log + image diff for confinement, source hash before/after; descriptor re-opened between copies (zck_set_fd), target on descriptor 2, crafted index pairs",
+                technique="offline checker over zck_copy_chunks / zck_find_matching_chunks runs: valid flags vs hashlib recomputation over the target's bytes, write(2) interposer log + image diff for confinement, source hash before/after; descriptor re-opened between copies (zck_set_fd), target on descriptor 2, crafted index pairs; zero-block chunks over stale target bytes; sources cut inside a chunk",
                 text=EXPL,
                 note=TRUST),
     "C09": dict(level="exploration",
-                technique="runtime monitoring of zck_find_valid_chunks / zck_validate_checksums / zck_validate_data_checksum on generated on-disk states: flags and verdicts vs hashlib recomputation, interposer log proves no write, read-after-validation equals read-without; sparse files, empty and repeated chunks, another writer's header layouts, validation through a pipe; tool verdicts (zck_read_header -f with and without -c, unzck -c)",
+                technique="runtime monitoring of zck_find_valid_chunks / zck_validate_checksums / zck_validate_data_checksum on generated on-disk states: flags and verdicts vs hashlib recomputation, interposer log proves no write, read-after-validation equals read-without; sparse files, empty and repeated chunks, another writer's header layouts (incl. a first entry storing the frame of nothing), validation through a pipe; tool verdicts (zck_read_header -f with and without -c, unzck -c)",
                 text=EXPL + " All 4^n chunk-state combinations are enumerated for the smallest files.",
                 note=TRUST),
     "C10": dict(level="exploration",
-                technique="runtime monitoring of zck_get_missing_range / zck_get_range_char / range index on validity vectors established through the public API (all 2^n vectors for small n, exhaustive) against a Python set computation over the chunk table; ASan on the string builder; multi-step sequences on one context (late hints, copies with damaged sources), empty chunks, 10-digit offsets with > 32 KB of request text",
+                technique="runtime monitoring of zck_get_missing_range / zck_get_range_char / range index on validity vectors established through the public API (all 2^n vectors for small n, exhaustive) against a Python set computation over the chunk table; ASan on the string builder; multi-step sequences on one context (late hints, copies with damaged sources), empty chunks, 10-digit offsets with > 32 KB of request text, valid gaps of exactly k x 4 GiB, padded headers",
                 text=EXPL + " All validity vectors of the small indexes x all limits are enumerated completely.",
                 note=TRUST),
     "C11": dict(level="fault_enumeration",
@@ -58,19 +58,19 @@ CHECKS = {
                 text="Every target write of each scenario is a kill point and each is executed with several partial-transfer sizes (exhaustive per scenario); scenarios sampled. Right level: the property quantifies over interruption points of a finite execution.",
                 note=TRUST + " Interruption modelled at write(2) granularity; no power-loss reordering."),
     "C12": dict(level="fault_enumeration",
-                technique="fault enumeration: every read/write/lseek on every descriptor class in each scenario is failed (EIO/ENOSPC/EINTR), shortened or zeroed via link-time and LD_PRELOAD interposers; oracle: success reported => the bytes that reached the descriptor are complete and correct; kernel-side copy calls (sendfile family) counted and faulted as writes; callers that clear the error and retry (writer and chunk copy); double faults",
+                technique="fault enumeration: every read/write/lseek on every descriptor class in each scenario is failed (EIO/ENOSPC/EINTR), shortened or zeroed via link-time and LD_PRELOAD interposers; oracle: success reported => the bytes that reached the descriptor are complete and correct; kernel-side copy calls (sendfile family) counted and faulted as writes; callers that clear the error and retry (writer, reader and chunk copy); step-by-step opens; double faults",
                 text="For each scenario a fault-free run counts the calls per (syscall, descriptor class); every k-th call is then re-run under each fault kind (exhaustive per scenario). Right level: the property quantifies over failure points of a finite execution.",
                 note=TRUST + " (INJECTED) markers in the log prove each fault fired."),
     "C13": dict(level="exploration",
-                technique="runtime differential monitoring: dump of every public getter + chunk iteration and zck_read_header output and lookups by number in non-ascending orders vs independent reference parse of reference-writer headers (boundary grid, re-sealed); optional-element overruns/rewinds, unused header bytes, image behind another image in the same descriptor",
+                technique="runtime differential monitoring: dump of every public getter + chunk iteration and zck_read_header output and lookups by number in non-ascending orders vs independent reference parse of reference-writer headers (boundary grid, re-sealed); optional-element overruns/rewinds, unused header bytes, image behind another image in the same descriptor; type values modulo 2^8 / 2^16, overflowing lead integers, writer-side options on reading contexts",
                 text=EXPL,
                 note=TRUST),
     "C14": dict(level="exploration",
-                technique="runtime monitoring of zck_get_chunk_data / zck_get_chunk_comp_data request sequences (all sequences up to length 2/3 for small files) against reference slices, with buffers exactly / larger / smaller than the chunk; history independence via position-independent expectation; requests interleaved with the application's own use of the descriptor; chunks beyond 10 MiB; unzck --dict on files and detached headers",
+                technique="runtime monitoring of zck_get_chunk_data / zck_get_chunk_comp_data request sequences (all sequences up to length 2/3 for small files) against reference slices, with buffers exactly / larger / smaller than the chunk; history independence via position-independent expectation; requests interleaved with the application's own use of the descriptor; chunks beyond 10 MiB; foreign zstd frame styles; unzck --dict on files and detached headers",
                 text=EXPL + " All request sequences up to the stated length are enumerated for the smallest files.",
                 note=TRUST),
     "C15": dict(level="exploration",
-                technique="runtime monitoring of zck_read on zstd files with single-bit body corruption: every successfully returned byte attributed to its chunk via the reference index; a byte from a chunk whose stored bytes mismatch its checksum is a violation; the corrupted chunk also requested by number (zck_get_chunk_data); chunks of several MiB (stored size > 4 MiB) and runs of identical chunks",
+                technique="runtime monitoring of zck_read on zstd files with single-bit body corruption: every successfully returned byte attributed to its chunk via the reference index; a byte from a chunk whose stored bytes mismatch its checksum is a violation; the corrupted chunk also requested by number (zck_get_chunk_data); chunks of several MiB (stored size > 4 MiB), runs of identical chunks, multi-frame chunks",
                 text=EXPL,
                 note=TRUST),
     "C16": dict(level="exploration",
@@ -78,15 +78,15 @@ CHECKS = {
                 text=EXPL,
                 note=TRUST),
     "C17": dict(level="exploration",
-                technique="sanitizer monitoring (ASan+UBSan, signals, CPU bound) of the download callbacks fed structured hostile header lines / bodies and libFuzzer-generated responses; write(2) interposer log for confinement; valid flags vs hashlib; runs at DEBUG log level and with the target on descriptor 2; retry sequences; part headers beyond 1 MiB; chained application callbacks; a second transfer in the same process freed between header lines",
+                technique="sanitizer monitoring (ASan+UBSan, signals, CPU bound) of the download callbacks fed structured hostile header lines / bodies and libFuzzer-generated responses; write(2) interposer log for confinement; valid flags vs hashlib; runs at DEBUG log level and with the target on descriptor 2; retry sequences; part headers beyond 1 MiB; chained application callbacks; a second transfer in the same process freed between header lines; printf conversions in server text; deliveries while no range is set",
                 text=EXPL,
                 note="Counts ASan/UBSan reports, fatal signals, CPU-bound overruns; confinement judged from the interposer's write log."),
     "C18": dict(level="exploration",
-                technique="differential execution of the two real builds (OpenSSL and bundled SHA) with Python hashlib as third party: digests over all lengths 0..520 x segmentations, random long messages, and cross-build write/read of files; messages of 2^29+k bytes and single update calls above 256 MiB; a third of the runs with a dirty OpenSSL error queue / non-zero errno left by the application",
+                technique="differential execution of the two real builds (OpenSSL and bundled SHA) with Python hashlib as third party: digests over all lengths 0..520 x segmentations, random long messages, and cross-build write/read of files; messages of 2^29+k bytes and single update calls above 256 MiB; a third of the runs with a dirty OpenSSL error queue / non-zero errno left by the application; checksum options set again in the middle of a chunk",
                 text=EXPL + " Message lengths 0..520 x 4 types are enumerated completely for whole/1-byte/every-split segmentations.",
                 note="Third party: Python hashlib."),
     "C19": dict(level="exploration",
-                technique="ThreadSanitizer (happens-before race detection) over multi-threaded workloads on distinct contexts (write, read, validate, random access, copy, pinned opens, single-range and multipart downloads through the callbacks, process-wide log callback), reports filtered to library frames; per-thread return-value/fingerprint logs compared with a serial run of the same programs",
+                technique="ThreadSanitizer (happens-before race detection) over multi-threaded workloads on distinct contexts (write, read, validate, random access, copy, pinned opens, single-range and multipart downloads through the callbacks, process-wide log callback, contexts opened by the main thread and handed to a worker), reports filtered to library frames; per-thread return-value/fingerprint logs compared with a serial run of the same programs",
                 text="Held on the interleavings executed; TSan reports an unsynchronised conflicting pair whenever both accesses execute, so reach comes from every scenario pair being co-scheduled.",
                 note="TSan only sees instrumented code (library + harness); OpenSSL/zstd internals uninstrumented."),
     "C20": dict(level="exploration",
